@@ -101,6 +101,9 @@ type reqSpec struct {
 	// CPanic: conditions that PANIC for this request (they are not among Conds: a condition that panics has not
 	// returned true)
 	CPanic []int `json:"cpanic"`
+	// EscSlash > 0: the EscSlash-th "/" of Path (counted from 1, never the first) is sent percent-encoded (%2F).  The
+	// server decodes it: the request path is Path, whatever the raw request line looked like
+	EscSlash int `json:"escSlash"`
 	// outside the specification's string projection (non-UTF-8, very long, ...): only totality is judged;
 	// Path then holds the percent-escaped form, Raw the bytes that are sent
 	Opaque bool   `json:"opaque"`
@@ -116,6 +119,10 @@ func escapePath(p string) string {
 	var b strings.Builder
 	for i := 0; i < len(p); i++ {
 		c := p[i]
+		if c == 0 {
+			b.WriteString("%2F") // marker of httpRequest: a slash that travels percent-encoded
+			continue
+		}
 		if strings.IndexByte(unreserved, c) >= 0 {
 			b.WriteByte(c)
 		} else {
